@@ -19,6 +19,9 @@ RULE = ("Hypothesis-generated spectral densities (power law with alpha, zeta in 
         "CustomSD==PowerLawSD, Matsubara integrals real and equal to the imaginary-time kernel integrals. "
         "Non-trivial: temperature > 0 or cut-off type not exponential or custom density (no closed form available "
         "to the library author's tests); distinct = distinct canonical JSON encoding of the generated case.")
+TECHNIQUE = 'Hypothesis property-based testing against an independent quadrature reference, closed forms and metamorphic identities'
+LEVEL_TEXT = "Generated spectral densities/cells; every 2D integral is compared with an independent frequency-domain quadrature, with quadrature of the object's own correlation(), with tiling/additivity identities, closed forms and the imaginary-time kernel. Exploration within stated parameter ranges; no proof of absence."
+LEVEL_NOTE = 'Trusts scipy.integrate.quad at epsrel 1e-12 on few-oscillation pieces as the reference; tolerances are 100x the quadrature tolerance the library requests (calibrated).'
 ASSUMPTIONS = [
     "reference quadrature (scipy quad on few-oscillation pieces, epsrel 1e-12) is accurate to 1e-10 relative",
     "library is asked for its default quadrature tolerance 2^-26 and scipy's default epsabs 1.49e-8 per quad call",
